@@ -95,7 +95,11 @@ def gen_task(rng, lay, i, focus, knobs):
         t['spawn_error'] = True
     if rng.random() < knobs.get('timeout_share', 0.0):
         d['timeout'] = rng.choice([0.2, 0.5, 1.0])
-        t['runtime'] = rng.choice([0.1, 0.5, 1.0, 5.0])
+        # 1000: a process which never ends by itself - if its run-time limit
+        # is lost the task is left behind
+        t['runtime'] = rng.choice([0.1, 0.5, 1.0, 5.0, 1000.0, 1000.0]
+                                  if focus in ('exec', 'full') else
+                                  [0.1, 0.5, 1.0, 5.0])
     if rng.random() < knobs.get('racy_share', 0.0):
         t['racy'] = True
     if rng.random() < knobs.get('grace_share', 0.0):
@@ -131,6 +135,15 @@ def gen_scenario(rng, tier, focus, knobs):
                 t['runtime'] = rng.choice([0.2, 1.0, 2.5, 2.5])
             else:
                 t['at'] = round(0.5 + t['at'], 2)
+    if knobs.get('to_burst') and rng.random() < knobs['to_burst']:
+        # a stream of tasks with run-time limits: the executor's intake hands
+        # limits to the timeout watcher while that is busy with earlier ones
+        # (the watcher sleeps 1s while it has nothing to watch)
+        for t in tasks:
+            if not t['preplaced']:
+                t['descr']['timeout'] = rng.choice([0.5, 1.0, 2.0])
+                t['runtime'] = rng.choice([0.1, 5.0, 1000.0, 1000.0])
+                t['at'] = round(rng.uniform(0.0, 2.5), 2)
     ops = list()
     if rng.random() < knobs.get('cancel_prob', 0.0):
         for _ in range(rng.randint(1, 3)):
@@ -147,8 +160,18 @@ def gen_scenario(rng, tier, focus, knobs):
                                rps.AGENT_EXECUTING_PENDING,
                                rps.AGENT_EXECUTING, rps.AGENT_EXECUTING,
                                'spawn', 'spawn', 'exit', 'exit'])
-            extra = sorted(set([i] + ([rng.randrange(n)]
-                                      if rng.random() < 0.3 else [])))
+            # the trigger task first, then (half of the time) one or two
+            # others: handling those keeps the cancel handler busy
+            extra = [i]
+            if rng.random() < 0.5:
+                for k in rng.sample(range(n), min(n, rng.randint(1, 2))):
+                    if k not in extra:
+                        extra.append(k)
+                # ... and tasks which live long enough to tell whether they
+                # were stopped
+                for k in extra:
+                    if rng.random() < 0.6:
+                        tasks[k]['runtime'] = rng.choice([1.0, 2.5])
             ops.append([0.0, 'cancel_on', extra, i, trig])
     if any(t['descr'].get('named_env') for t in tasks):
         if rng.random() < 0.8:
@@ -1301,6 +1324,18 @@ def oracle_c08(sim, sc, st):
                     v(sim, 'C08', 'named_not_canceled',
                       cause_of(st, uid, 'popen'), uid,
                       {'outcomes': outs, 'ran_on_for': round(ext, 3)},
+                      len(sim.events))
+            elif spawn is not None and spawn > dseq and exit_ is not None \
+                    and exit_.get('why') == 'time' and outs:
+                # the request reached the executor before the process was
+                # spawned ("between placement and launch"): the process was
+                # started nevertheless and ran to its natural end - whatever
+                # state the task is given afterwards, it was not stopped
+                ext = sim.events[exit_['seq']]['t'] - sim.events[spawn]['t']
+                if ext > 0.45:
+                    v(sim, 'C08', 'named_not_canceled',
+                      cause_of(st, uid, 'popen') + ':before_spawn', uid,
+                      {'outcomes': outs, 'ran_for': round(ext, 3)},
                       len(sim.events))
 
 
